@@ -194,6 +194,9 @@ type Mesh struct {
 	LostForMargins int
 	// SentOnClosedLink counts frames handed to a link object after it was closed.
 	SentOnClosedLink int
+	// settling state (see Settle)
+	busyWindows     int
+	residentWorkers bool
 	KeepLog        bool
 }
 
@@ -482,12 +485,19 @@ func (ms *Mesh) Drain(pol Policy, maxSteps int) (steps int, drained bool) {
 		}
 		ms.mu.Unlock()
 		if n == 0 {
-			return steps, true
+			// nothing in flight: before calling that quiescence, let work that a handler handed to a goroutine of
+			// its own finish (see Settle) and look again
+			ms.Settle()
+			if ms.Pending() == 0 {
+				return steps, true
+			}
+			continue
 		}
 		p := ms.Take(idx)
 		ms.Deliver(p)
 		steps++
 	}
+	ms.Settle()
 	return steps, ms.Pending() == 0
 }
 
@@ -635,4 +645,48 @@ func (ms *Mesh) DeliverLive(p *Packet) LiveOutcome {
 	}
 	out.Lost = true
 	return out
+}
+
+// ---- settling: work a handler handed to another goroutine
+
+// The mesh is driven synchronously: the harness calls a handler and looks at what it put on the links. A tree
+// that hands part of that work to goroutines of its own (a send queue drained by a worker, forwarding moved to
+// a pool) is still correct as far as the properties go, but its frames appear a moment after the handler returned.
+// Settle waits until no manager of any node shows a running worker any more (routers of the mesh are not started,
+// so outside a handler call there normally is none). Workers that never end (started lazily by such a tree) are
+// recognised after two full windows; from then on Settle only grants them a short fixed grace.
+func (ms *Mesh) Settle() {
+	if ms.residentWorkers {
+		time.Sleep(1500 * time.Microsecond)
+		return
+	}
+	for round := 0; round < 150; round++ {
+		busy := false
+		for _, n := range ms.Nodes {
+			if n.Inst == nil {
+				continue
+			}
+			if n.Inst.RouterV != nil && !n.Inst.RouterV.Manager().WaitForWorkers(time.Microsecond) {
+				busy = true
+			}
+			if n.Inst.SwitchV != nil && !n.Inst.SwitchV.Manager().WaitForWorkers(time.Microsecond) {
+				busy = true
+			}
+			if n.Inst.PeeringV != nil && !n.Inst.PeeringV.Manager().WaitForWorkers(time.Microsecond) {
+				busy = true
+			}
+			if n.Inst.StateV != nil && !n.Inst.StateV.Manager().WaitForWorkers(time.Microsecond) {
+				busy = true
+			}
+		}
+		if !busy {
+			ms.busyWindows = 0
+			return
+		}
+		time.Sleep(200 * time.Microsecond)
+	}
+	ms.busyWindows++
+	if ms.busyWindows >= 2 {
+		ms.residentWorkers = true
+	}
 }
